@@ -354,69 +354,38 @@ class Shape(Coordinate):
 
         angle_rad = np.pi * angle / 180.
 
-        # Which point we get if we walk a distance of cell radius in the
-        # desired angle direction?
-        point = cast(complex, self.pos + self._radius * np.exp(angle_rad * 1j))
+        # Unitary vector pointing in the desired direction
+        direction = np.exp(angle_rad * 1j)
 
-        # Calculates the distance of this point to all vertices and finds
-        # the closest vertices
-        dists = np.abs(self.vertices - point)
-        # Get the two closest vertices from point
-        closest_vertices = self.vertices[np.argsort(dists)[:2]]
+        # If we start from self.pos and walk "t" in the desired direction
+        # we cross the line containing the edge from vertex v1 to vertex
+        # v2 when
+        #    self.pos + t * direction = v1 + s * (v2 - v1)
+        # The crossing is in the edge itself (and not only in the line
+        # containing it) if "s" is between 0 and 1. Among all edges in
+        # front of us (t > 0) we take the one where "s" is the closest to
+        # that interval (the nearest of them if there is more than one).
+        def cross(x: complex, y: complex) -> float:
+            return x.real * y.imag - x.imag * y.real
 
-        # The equation of a straight line is given by "y = ax + b". We have
-        # two points in this line (the two closest vertices) and we can use
-        # them to find 'a' and 'b'. First let's find the different of these
-        # two closest vertexes
-        diff = closest_vertices[0] - closest_vertices[1]
+        vertices = self.vertices
+        best = None
+        for v1, v2 in zip(vertices, np.roll(vertices, -1)):
+            edge = v2 - v1
+            den = cross(direction, edge)
+            if abs(den) <= 1e-14 * abs(edge):
+                # The edge is parallel to the desired direction
+                continue
+            t = cross(v1 - self.pos, edge) / den
+            s = cross(v1 - self.pos, direction) / den
+            if t <= 0:
+                continue
+            candidate = (max(0.0, -s, s - 1.0), t)
+            if best is None or candidate < best:
+                best = candidate
 
-        # xxxxx Special case for a vertical line xxxxxxxxxxxxxxxxxxxxxxxxxx
-        # noinspection PyTypeChecker
-        if np.allclose(diff.real, 0.0, atol=1e-15):
-            # If the the real part of diff is equal to zero, that means
-            # that the straight line is actually a vertical
-            # line. Therefore, all we need to do to get the border point is
-            # to start from the shape's center and go with the desired
-            # angle until the value in the 'x' axis is equivalent to
-            # closest_vertices[0].real.
-            adjacent_side = closest_vertices[0].real - self.pos.real
-            side = np.tan(angle_rad) * adjacent_side
-            point = self.pos + adjacent_side + 1j * side
-            # Now all that is left to do is apply the ratio, which only
-            # means that the returned point is a linear combination between
-            # the shape's central position and the point at the border of
-            # the shape
-
-            return (1 - ratio) * self.pos + ratio * point
-        # xxxxxxxxxxxxxxxxxxxxxxxxxxxxxxxxxxxxxxxxxxxxxxxxxxxxxxxxxxxxxxxxx
-
-        # Calculates the 'a' and 'b' in the line equation "y=ax+b"
-        a = diff.imag / diff.real
-        b = closest_vertices[1].imag - a * closest_vertices[1].real
-
-        # Note that is we start from self.pos and walk in the direction
-        # pointed by the angle by "some step" we should reach the line
-        # where the two closest vertexes are. If we can find this "step"
-        # then we will get our desired point.
-        # That is, for the step "z" we have
-        #    self.pos + np.exp(1j * angle_rad) * z = complex(x, a * x + b)
-        # Which we can write as the system of equations
-        #    self.pos.real + np.exp(1j * angle).real * z = x
-        #    self.pos.imag + np.exp(1j * angle).imag * z = a * x + b
-        # Lets create some aliases for the constants so that
-        #     A + B * z = x
-        #     C + D * z = a * x + b
-        A = self.pos.real
-        B = np.exp(1j * angle_rad).real
-        C = self.pos.imag
-        D = np.exp(1j * angle_rad).imag
-        # Through some algebraic manipulation the correct step "z" is given
-        # by
-        z = (A * a + b - C) / (D - (a * B))
-
-        # Now we can finally find the desired point at the border of the
-        # shape
-        point = self.pos + np.exp(1j * angle_rad) * z
+        assert best is not None
+        point = self.pos + direction * best[1]
 
         # Now all that is left to do is apply the ratio, which only means
         # that the returned point is a linear combination between the
